@@ -73,7 +73,17 @@ def _items(f) -> tuple:
     return tuple(sorted(f.items())) if isinstance(f, dict) else tuple(f)
 
 
-def _steps(beh: list[dict]) -> list[tuple]:
+def _enabled(g, node) -> list[str]:
+    out = set()
+    for lab, _v in g.out.get(node, []):
+        if lab == "L":
+            out.add("loop")
+        elif lab.startswith(("C(", "H(")):
+            out.add(lab[0].lower() + lab[2:-1])
+    return sorted(out)
+
+
+def _steps(beh: list[dict], g=None, nodes=None) -> list[tuple]:
     out = []
     lab_l = {"start": "start", "accept": "accept", "done": "EXIT"}
     lab_h = {"fin": "acq", "done": "EXIT"}
@@ -92,6 +102,8 @@ def _steps(beh: list[dict]) -> list[tuple]:
             out.append(("X", 0, ""))
         else:
             raise MachineryError(f"unlabelled step in the state graph: {a}")
+    if g is not None:
+        out = [s if s[0] == "X" else s + (_enabled(g, n),) for s, n in zip(out, nodes[1:])]
     return out
 
 
@@ -151,8 +163,8 @@ def run(ctx: Ctx) -> None:
         scripts = {c: list(v) for c, v in sorted(s0["script"].items())} if isinstance(s0["script"], dict) \
             else {i + 1: list(v) for i, v in enumerate(s0["script"])}
         mx = s0["mx"]
-        steps = _steps(g.path_to_behaviour(nodes, labs))
-        sk = json.dumps([scripts, mx, [s[:2] for s in steps]])
+        steps = _steps(g.path_to_behaviour(nodes, labs), g, nodes)
+        sk = json.dumps([scripts, mx, [list(s[:2]) for s in steps]])
         if sk in seen:
             continue
         seen.add(sk)
@@ -171,7 +183,7 @@ def run(ctx: Ctx) -> None:
                  if pi % 53 == 0 else None)
         if res["drift"]:
             ctx.drift.append({"scripts": scripts, "mx": mx, "drift": res["drift"]})
-        runs.append({"scripts": scripts, "mx": mx, "steps": [list(s) for s in steps], "res": res, "solo": solo})
+        runs.append({"scripts": scripts, "mx": mx, "steps": [list(s[:3]) for s in steps], "res": res, "solo": solo})
 
     # ---- (3) code -> spec
     n_of = lambda r: len(r["scripts"])  # noqa: E731
